@@ -229,6 +229,39 @@ struct Case {
                 if (sc(i, j) != ws) vh::viol(nm + ":scaling", "entry(" + std::to_string(i) + "," + std::to_string(j) + ")=" + std::to_string(sc(i, j)) + " want " + std::to_string(ws));
                 if (id(i, j) != wi) vh::viol(nm + ":identity", "entry(" + std::to_string(i) + "," + std::to_string(j) + ")=" + std::to_string(id(i, j)));
             }
+        // arguments of different arithmetic types: each one is converted to the matrix element type on its own
+        if constexpr (N >= 2) {
+            const int ni = -(int)rng.range(1, 9);
+            const unsigned ui = (unsigned)rng.range(1, 9);
+            const std::size_t zi = (std::size_t)rng.range(1, 9);
+            const float ff = 0.5f + (float)rng.range(0, 4);
+            const long big = 16777217l + rng.range(0, 3) * 2;  // not representable in float
+            aff_t m1, m2, m3;
+            T w1[4] = {}, w2[4] = {}, w3[4] = {};
+            if constexpr (N == 2) {
+                m1 = aff_t::translation(ni, ui);
+                m2 = aff_t::scaling(ni, zi);
+                m3 = aff_t::translation(ff, big);
+                w1[0] = (T)ni, w1[1] = (T)ui, w2[0] = (T)ni, w2[1] = (T)zi, w3[0] = (T)ff, w3[1] = (T)big;
+            } else if constexpr (N == 3) {
+                m1 = aff_t::translation(ni, ui, zi);
+                m2 = aff_t::scaling(ni, ff, zi);
+                m3 = aff_t::translation(ff, big, ni);
+                w1[0] = (T)ni, w1[1] = (T)ui, w1[2] = (T)zi, w2[0] = (T)ni, w2[1] = (T)ff, w2[2] = (T)zi, w3[0] = (T)ff, w3[1] = (T)big, w3[2] = (T)ni;
+            } else {
+                m1 = aff_t::translation(ni, ui, zi, ff);
+                m2 = aff_t::scaling(ff, ni, zi, ui);
+                m3 = aff_t::translation(ff, big, ni, ui);
+                w1[0] = (T)ni, w1[1] = (T)ui, w1[2] = (T)zi, w1[3] = (T)ff, w2[0] = (T)ff, w2[1] = (T)ni, w2[2] = (T)zi, w2[3] = (T)ui, w3[0] = (T)ff, w3[1] = (T)big,
+                w3[2] = (T)ni, w3[3] = (T)ui;
+            }
+            vh::ev(3);
+            for (std::size_t i = 0; i < N; ++i) {
+                if (m1(i, N) != w1[i]) vh::viol(nm + ":translation-mixed-argument-types", "argument " + std::to_string(i) + " arrived as " + std::to_string(m1(i, N)) + ", expected " + std::to_string(w1[i]));
+                if (m2(i, i) != w2[i]) vh::viol(nm + ":scaling-mixed-argument-types", "argument " + std::to_string(i) + " arrived as " + std::to_string(m2(i, i)) + ", expected " + std::to_string(w2[i]));
+                if (m3(i, N) != w3[i]) vh::viol(nm + ":translation-mixed-argument-types", "argument " + std::to_string(i) + " arrived as " + std::to_string(m3(i, N)) + ", expected " + std::to_string(w3[i]));
+            }
+        }
         // scaling * translation, the way every example builds its geometry: x -> s .* (x + t)
         aff_t st = sc * tr;
         vec_t v;
